@@ -218,9 +218,13 @@ func mutateExpr(rt *rapid.T, s string) string {
 // failingOp draws a request that DynamoDB rejects, of one of the error classes.
 func (g *tgen) failingOp(rt *rapid.T, db *model.DB) (model.Op, string) {
 	t := db.Tables[g.s.Table]
-	class := rapid.SampledFrom([]string{"missing-key-attr", "wrong-typed-key", "unknown-table", "unused-placeholder", "malformed-placeholder",
-		"failed-condition", "malformed-expression", "ill-typed-update", "last-action-fails", "index-key-type-put", "index-key-type-update",
-		"batch-unknown-table", "batch-bad-key", "batch-index-key-type", "key-attr-update"}).Draw(rt, "failClass")
+	classes := g.failClasses
+	if classes == nil {
+		classes = []string{"missing-key-attr", "wrong-typed-key", "unknown-table", "unused-placeholder", "malformed-placeholder",
+			"failed-condition", "malformed-expression", "ill-typed-update", "last-action-fails", "index-key-type-put", "index-key-type-update",
+			"batch-unknown-table", "batch-bad-key", "batch-index-key-type", "key-attr-update"}
+	}
+	class := rapid.SampledFrom(classes).Draw(rt, "failClass")
 	key := g.key(rt)
 	badKey := func() model.Item {
 		k := model.CloneItem(key)
